@@ -851,7 +851,7 @@ impl Subj for UnionFind<OptionMap<u8, Cell<u8>>> {
 /// VecMap / ArrayMap backed union-finds: forests given directly as (item, parent) entries with
 /// distinct items whose edges are acyclic (a well-formed parent map), built from an edge list by
 /// keeping an edge (a,b) only when `a` has no parent yet and b is not a descendant of a.
-fn forest_entries(edges: &[(u8, u8)]) -> Vec<(u8, u8)> {
+pub fn forest_entries(edges: &[(u8, u8)]) -> Vec<(u8, u8)> {
     let mut parent: BTreeMap<u8, u8> = BTreeMap::new();
     let root = |p: &BTreeMap<u8, u8>, mut x: u8| {
         while let Some(&y) = p.get(&x) {
